@@ -47,6 +47,7 @@ type world struct {
 	commitsInReinstate int
 	loggedInReinstate  int
 	synced        bool // passive is expected to equal active (fault-free so far, or cleanly reinstated)
+	dead          bool // the case stopped observing (a racy outcome followed)
 	dirtyWhy      string
 }
 
@@ -131,6 +132,9 @@ func (w *world) logCount() int {
 }
 
 func (w *world) meta() {
+	if w.dead {
+		return
+	}
 	g := "nil"
 	if fs.GlobalReplicationDetails != nil {
 		g = replx.Bits(*fs.GlobalReplicationDetails)
@@ -168,6 +172,9 @@ func (w *world) afterOp(before string, wasFailed bool, what string) {
 
 // write runs one transaction on store name: create it when absent, add / update / remove items, commit.
 func (w *world) write(name string, nAdd, nUpd, nDel int) {
+	if w.dead {
+		return
+	}
 	before, wasFailed := w.passiveSnapshot(), w.failedNow()
 	t, err := w.e.NewTxn(w.ctx, sop.ForWriting, time.Minute, nil)
 	if err != nil {
@@ -244,11 +251,13 @@ func (w *world) write(name string, nAdd, nUpd, nDel int) {
 	if cerr != nil {
 		out = "err"
 	}
-	count := int64(len(next))
+	count := "-" // the count delta is 0: no store info is updated, replicated or logged
 	if len(stores) > 0 {
-		count = stores[0].Count
+		count = fmt.Sprint(stores[0].Count)
+	} else {
+		w.s.Hit("commit_without_count_change")
 	}
-	w.s.Op(fmt.Sprintf("commit %s %d R=%s A=%s U=%s D=%s", name, count, w.handles(r), w.handles(a), w.handles(u), w.keys(d)), out)
+	w.s.Op(fmt.Sprintf("commit %s %s R=%s A=%s U=%s D=%s", name, count, w.handles(r), w.handles(a), w.handles(u), w.keys(d)), out)
 	w.s.Hit("commit:" + out)
 	if len(d) > 0 {
 		w.s.Hit("commit_with_removed_nodes")
@@ -265,6 +274,13 @@ func (w *world) write(name string, nAdd, nUpd, nDel int) {
 		return
 	}
 	w.ref[name] = next
+	if w.broke == "" && !wasFailed && w.failedNow() {
+		// replication failed on a writable passive folder (a record the passive registry should have is missing);
+		// whether the store info was still written is a race between two goroutines: stop observing this case
+		w.s.Fail("C27/replication-fails-again-on-incomplete-passive", "after a reinstate the passive registry lacks records, so a later commit's registry replication fails (can't delete a missing item) and FailedToReplicate is set again", name)
+		w.dead = true
+		return
+	}
 	if w.broke != "" && !wasFailed {
 		w.s.Hit("fault_hit_during_commit")
 		w.everFault = true
@@ -279,6 +295,9 @@ func (w *world) write(name string, nAdd, nUpd, nDel int) {
 }
 
 func (w *world) remove(name string) {
+	if w.dead {
+		return
+	}
 	before, wasFailed := w.passiveSnapshot(), w.failedNow()
 	err := w.e.RemoveBtree(w.ctx, name)
 	out := "ok"
@@ -298,6 +317,9 @@ func (w *world) remove(name string) {
 }
 
 func (w *world) brk(kind, name string) {
+	if w.dead {
+		return
+	}
 	if kind == "drive" {
 		if err := replx.Break(w.passiveDir()); err != nil {
 			panic(err)
@@ -315,6 +337,9 @@ func (w *world) brk(kind, name string) {
 }
 
 func (w *world) heal(keep bool) {
+	if w.dead {
+		return
+	}
 	path := w.passiveDir()
 	if strings.HasPrefix(w.broke, "store ") {
 		path += "/" + strings.TrimPrefix(w.broke, "store ")
@@ -343,6 +368,9 @@ func (w *world) reinstateDone() {
 }
 
 func (w *world) rphase(k int) {
+	if w.dead {
+		return
+	}
 	if k == 1 {
 		rt, err := fs.NewReplicationTracker(w.ctx, w.e.Folders, true, w.e.L2)
 		if err != nil {
@@ -378,6 +406,9 @@ func (w *world) rphase(k int) {
 }
 
 func (w *world) reinstate() {
+	if w.dead {
+		return
+	}
 	rt, err := fs.NewReplicationTracker(w.ctx, w.e.Folders, true, w.e.L2)
 	if err != nil {
 		panic(err)
@@ -401,6 +432,9 @@ func (w *world) reinstate() {
 }
 
 func (w *world) failover() {
+	if w.dead {
+		return
+	}
 	wasFirst := w.togglerFirst()
 	wasFailed := w.failedNow()
 	err := fs.TriggerFailover(w.ctx, w.e.Folders, true, w.e.L2)
@@ -422,6 +456,9 @@ func (w *world) failover() {
 }
 
 func (w *world) cold() {
+	if w.dead {
+		return
+	}
 	cache.VerifResetGlobalL1()
 	w.e.L2 = cache.NewL2InMemoryCache()
 	cache.GetGlobalL1Cache(w.e.L2)
@@ -432,6 +469,9 @@ func (w *world) cold() {
 
 // colddump: what a freshly started process (own caches, no status in memory) believes and reads.
 func (w *world) colddump() {
+	if w.dead {
+		return
+	}
 	var line string
 	var ds []storex.StoreDump
 	wantFirst := w.togglerFirst()
